@@ -359,7 +359,73 @@ func toMap(v interface{}) map[string]interface{} {
 	return m
 }
 
+// sink is where runCredOnce puts its records (the trace, or a buffer while an honest failure is being re-tried).
+type sink interface {
+	Put(r *hx.Record)
+	N() int
+}
+
+type bufSink struct {
+	base int
+	recs []*hx.Record
+}
+
+func (b *bufSink) Put(r *hx.Record) { b.recs = append(b.recs, r) }
+func (b *bufSink) N() int           { return b.base + len(b.recs) }
+
+// credHonestFailure: an honest issuer signature, derivation or derived proof was rejected.
+func credHonestFailure(recs []*hx.Record) *hx.Record {
+	for _, r := range recs {
+		if r.Oracle != "fail" {
+			continue
+		}
+
+		if strings.HasPrefix(r.Sig, "cred-honest-") ||
+			(strings.HasPrefix(r.Sig, "cred-derive-failed") && strings.Contains(r.Detail, "invalid BLS12-381 signature")) {
+			return r
+		}
+	}
+
+	return nil
+}
+
+// runCred runs the case; a rejected HONEST signature / derivation / derived proof is re-tried once with fresh randomness
+// (as at the primitive level): only a failure that does not repeat becomes the known finding unreproducible-honest-reject.
 func runCred(kind string, c *CredCase, tr *hx.Trace) {
+	first := &bufSink{base: tr.N()}
+	runCredOnce(kind, c, first)
+
+	flush := func(b *bufSink) {
+		for _, r := range b.recs {
+			tr.Put(r)
+		}
+	}
+
+	f := credHonestFailure(first.recs)
+	if f == nil || c.form() == "no-ids" {
+		flush(first)
+
+		return
+	}
+
+	second := &bufSink{base: tr.N() + 1}
+	runCredOnce(kind, c, second)
+
+	if credHonestFailure(second.recs) != nil { // reproducible: a real completeness failure
+		flush(first)
+
+		return
+	}
+
+	f.Coq = ""
+	f.Detail = "NOT REPRODUCED on a second attempt with fresh randomness; first attempt: " + f.Sig + ": " + f.Detail
+	f.Sig = "unreproducible-honest-reject"
+	f.Kind = kind + ":retry"
+	tr.Put(f)
+	flush(second)
+}
+
+func runCredOnce(kind string, c *CredCase, tr sink) {
 	base := &hx.Record{Kind: kind, Case: c}
 	fail0 := func(sig, detail string) {
 		if base.Oracle != "fail" {
